@@ -177,6 +177,9 @@ func Go(f func()) {
 		go f()
 		return
 	}
+	if s.aborting {
+		panic(abortSentinel)
+	}
 	s.spawn("go", f, false)
 }
 
@@ -329,6 +332,9 @@ func (s *Sched) chooseC(n int, runEnabled, data bool, firstCostly int) int {
 //go:norace
 func Choose(n int) int {
 	s := cur
+	if s != nil && s.aborting {
+		panic(abortSentinel) // see PointOp
+	}
 	if s == nil || n <= 1 {
 		return 0
 	}
@@ -469,6 +475,12 @@ func PointOp(op *Op) {
 	s := cur
 	if s == nil {
 		return
+	}
+	if s.aborting {
+		// the execution is over: every thread is unwinding (concurrently, as plain goroutines). Code
+		// that runs in deferred functions on the way out must not go on using the model or the real
+		// primitives behind it
+		panic(abortSentinel)
 	}
 	t := s.cur
 	t.pend = op
